@@ -9,10 +9,10 @@ Local Open Scope Z_scope.
 
 Section SegArr.
 Variables mgr segsz : Z.
-Variable segcap : nat.       (* items per segment (uniform in the model; the real segment sizes follow Settings::GetSegmentCount) *)
+Variable segcapf : nat -> nat.   (* capacity of the k-th segment: ANY function (Settings::GetSegItemIndexes / itemCountFunc) *)
 
 (* the object: full older segments (newest first) and the current segment with the number of items constructed in it *)
-Definition sa_state : Type := (list Z * option (Z * nat))%type.
+Definition sa_state : Type := (list (Z * nat) * option (Z * nat))%type.
 
 (* AddBackCrt, n times: if (mCount == GetCapacity()) pvIncCapacity (a new segment; the capacity stays increased when the item
    creation throws); itemCreator(item); ++mCount *)
@@ -21,10 +21,10 @@ Fixpoint sa_fill (src : Z) (i : Z) (n : nat) (st : sa_state) (s : rstate) : (sa_
   | O => ((st, Val tt), s)
   | S n' =>
       let '(olds, cur) := st in
-      let room := match cur with Some (_, fill) => Nat.ltb fill segcap | None => false end in
+      let room := match cur with Some (_, fill) => Nat.ltb fill (segcapf (length olds)) | None => false end in
       match (if room then (fun s => (Val st, s)) else
                (fun s => match p_alloc mgr segsz s with
-                         | (Val seg, s1) => (Val (match cur with Some (sg, _) => sg :: olds | None => olds end, Some (seg, O)), s1)
+                         | (Val seg, s1) => (Val (match cur with Some (sg, fl) => (sg, fl) :: olds | None => olds end, Some (seg, O)), s1)
                          | (Exc, s1) => (Exc, s1)
                          | (Stuck, s1) => (Stuck, s1)
                          end)) s with
@@ -45,7 +45,7 @@ Definition sa_clear (st : sa_state) : M unit :=
   | Some (seg, fill) => p_touch_blk seg ;;; om_destroy_n seg 0 fill ;;; p_dealloc mgr seg segsz
   | None => ret tt
   end ;;;
-  drop_rows mgr segsz segcap false (fst st).
+  drop_rows mgr segsz (fst st).
 
 Definition sa_ctor_then_destroy (src : Z) (n : nat) : M unit := fun s =>
   let '((st, o), s1) := sa_fill src 0 n ([], None) s in
@@ -169,6 +169,21 @@ Fixpoint hs_adds (ops : list bool) (src : Z) (i : Z) (t : table) (s : rstate) : 
       end
   end.
 
+(* the same history with the growth points DERIVED from the capacity policy: pvAdd (1098-1112) grows iff !(mCount < mCapacity),
+   mCount = all items of the table, mCapacity = hashTraits.CalcCapacity(bucket count of the newest generation) = capf (g_no nw) *)
+Variable capf : Z -> nat.
+Definition tb_count (t : table) : nat := (g_fill (fst t) + fold_right (fun g a => g_fill g + a) 0 (snd t))%nat.
+Fixpoint hs_adds_auto (n : nat) (src : Z) (i : Z) (t : table) (s : rstate) : (table * outcome unit) * rstate :=
+  match n with
+  | O => ((t, Val tt), s)
+  | S n' =>
+      let grow := negb (Nat.ltb (tb_count t) (capf (g_no (fst t)))) in
+      match hs_add grow (src, i) t s with
+      | ((t', Stuck), s1) => ((t', Stuck), s1)
+      | ((t', _), s1) => hs_adds_auto n' src (i + 1) t' s1
+      end
+  end.
+
 (* ~HashSet: pvDestroy over every generation still linked: items destroyed, buffers returned *)
 Definition gen_destroy (g : gen) : M unit :=
   p_touch_blk (g_blk g) ;;; om_destroy_n (g_blk g) 0 (g_fill g) ;;; p_dealloc mgr (g_blk g) (gensz (g_no g)).
@@ -192,4 +207,21 @@ Definition hs_history (ops : list bool) (src : Z) : M unit := fun s =>
   | (Stuck, s0) => (Stuck, s0)
   end.
 
+Definition hs_history_auto (n : nat) (src : Z) : M unit := fun s =>
+  match p_alloc mgr (gensz 0) s with
+  | (Val b, s0) =>
+      let '((t, o), s1) := hs_adds_auto n src 0 ((b, O, 0), []) s0 in
+      match o with
+      | Stuck => (Stuck, s1)
+      | _ => hs_destroy t s1
+      end
+  | (Exc, s0) => (Exc, s0)
+  | (Stuck, s0) => (Stuck, s0)
+  end.
+
 End Growth.
+
+(* HashBucketOpen2N2<3> (= HashBucketOpenDefault) with logStartBucketCount = 4: bucket count 16 * 2^g (GetBucketCountShift = 1),
+   CalcCapacity = bucketCount * 3 / 12.0 * 11.0 (HashBucketOpen8.h:136-143) *)
+Definition open2n2_capacity (g : Z) : nat := Z.to_nat (2 ^ (4 + g) * 3 / 12 * 11).
+
